@@ -13,9 +13,14 @@ SPEC = dict(
         dict(name='iq', harness='h.cpp', tus=TUS, models=['qt_core.c', 'qt_list.c', 'qt_dom.c', 'models.c'], shadow_task=True,
              loop_bounds={r'^_ZNSt6ranges14__copy_or_move': 110},
              instances=STANZA + SEND + [
-                 I('session_e', 'session', 1, 'event in {sessionOpened(resumed?), sessionClosed(canResume?), cancelAll, ~QXmppOutgoingClient}'),
-                 I('session_l', 'session', 0, 'event in {sessionOpened(resumed?), sessionClosed(canResume?), cancelAll, ~QXmppOutgoingClient}'),
+             ] + [I('%s_%s' % (n, 'e' if e else 'l'), 'session', e | k << 4, 'event ' + d) for (k, n, d) in
+                  ((0, 'opened', 'onSessionOpened(arbitrary SessionBegin: resumed or not)'), (1, 'closed', 'onSessionClosed(canResume?)'), (2, 'cancelall', 'cancelAll()'), (3, 'destroy', '~QXmppOutgoingClient()'))
+                  for e in (1, 0) if e or k == 0] + [
                  I('finish', 'finish', 1, 'finish(id, result) with arbitrary id'),
+             ]),
+        dict(name='chain', harness='h_chain.cpp', tus=TUS, models=['qt_core.c', 'qt_list.c', 'qt_dom.c', 'models.c'], shadow_task=True,
+             loop_bounds={r'^_ZNSt6ranges14__copy_or_move': 110},
+             instances=[
                  I('chain_conv', 'chain', 1, 'chainIq with converter (QXmppClient::sendGenericIq), continuation before reply'),
                  I('chain_conv_l', 'chain', 0, 'chainIq with converter, continuation after reply'),
                  I('chain_typed', 'chain', 3, 'chainIq<variant<QXmppIq,QXmppError>>, continuation before reply'),
